@@ -103,6 +103,9 @@ MUTANTS = [
      "            self.writePackedDataRecord(h, data, new_tpos)",
      "                data = None\n\n"
      "            self.writePackedDataRecord(h, data, new_tpos)"),
+    ('C08', 'read-handle-marked-returned-before-it-is-pooled', FS,
+     "            self._files.append(f)\n            self._out.remove(f)\n",
+     "            self._out.remove(f)\n            self._files.append(f)\n"),
     ('C11', 'primary-close-checks-secondaries-late', CN,
      "            for connection in self.connections.values():\n                if not connection._needs_to_join:\n                    raise ConnectionStateError(\n                        \"Cannot close a connection joined to a transaction\")\n",
      "            pass\n"),
